@@ -427,6 +427,12 @@ func TestC19cDecodeTx(t *testing.T) {
 
 // runBlock: decode, stateless check, replica-mode execution.
 func (w *world) runBlock(raw []byte) (stage string, panicked string, errPanic bool) {
+	return w.runBlockOpt(raw, true)
+}
+
+// runBlockOpt: execute=false stops after the stateless checks (native fuzzing: Go's fuzz worker kills itself when ONE input
+// takes 10 s, which a replica-mode ApplyBlock can exceed on a loaded machine; executed blocks are covered by the rapid tests).
+func (w *world) runBlockOpt(raw []byte, execute bool) (stage string, panicked string, errPanic bool) {
 	blk := new(lib.Block)
 	var e lib.ErrorI
 	if p := guard(func() { e = lib.Unmarshal(raw, blk) }); p != "" {
@@ -446,6 +452,9 @@ func (w *world) runBlock(raw []byte) (stage string, panicked string, errPanic bo
 	}
 	if e != nil {
 		return "check", "", false
+	}
+	if !execute {
+		return "checked", "", false
 	}
 	p := guard(func() { _, _, e = w.c.Validate(blk) })
 	if p != "" {
@@ -702,7 +711,7 @@ func TestC19cDecodeBft(t *testing.T) {
 		}
 		// in situ: the mutant replaces the original in the scripted run (all receivers), the run continues to its end
 		var res *runResult
-		if p := guard(func() { res = runScenario(sc, e.id, mutant, nil, false) }); p != "" {
+		if p := guard(func() { res = runScenario(sc, e.id, mutant, nil, orderReplace) }); p != "" {
 			raw, _ := lib.Marshal(mutant)
 			rt.Fatalf("a %s message of validator %d with %s (%s) PANICS the receiving replicas (input %s)\n%s", e.kind, e.from, desc, mode, saveInput(rec, "bft-panic", raw), p)
 		}
